@@ -270,3 +270,12 @@ def run(ctx):
     ctx.run_clause("C15.a", c15a_shard_agreement)
     ctx.run_clause("C15.b", c15b)
     ctx.run_clause("C15.c", c15c)
+    # the interner's key is (type id, stable hash): equal values must hash alike whatever their history, else equal values get
+    # two allocations and a decoded Reference cannot be resolved.  C13.b (unordered collections are hashed order-independently)
+    # and C13.c (no address / layout / raw-storage input) are necessary for that; evaluated here as C15.d
+    from . import C13
+    impls13 = C13.hash_impls(ctx.prog)
+    ctx.alias = {"C13.b": "C15.d", "C13.c": "C15.d"}
+    ctx.run_clause("C15.d", lambda c: C13.c13b(c, c.prog, impls13))
+    ctx.run_clause("C15.d", lambda c: C13.c13c(c, c.prog, impls13))
+    ctx.alias = {}
